@@ -149,3 +149,351 @@ theorem psums_pairwise {acc : Nat} {ps : List Nat} (hpos : ∀ p ∈ ps, 0 < p) 
     omega
 
 end CV.Cat
+
+/-! ## the loop for an arbitrary closure and symbol iterator -/
+namespace CV.Cat
+open CV
+
+/-- `n` calls of `symbols.next()` -/
+def takeSyms {Sym : Type} : SymIter Sym → Nat → Option (List Sym × SymIter Sym)
+  | it, 0 => some ([], it)
+  | it, n + 1 =>
+    match it.next with
+    | none => none
+    | some (s, it') =>
+      match takeSyms it' n with
+      | none => none
+      | some (ss, rest) => some (s :: ss, rest)
+
+/-- consecutive calls of `operation(symbol, left_cumulative, probability)` -/
+def foldOp {σ Sym : Type} (op : σ → Sym → Nat → Nat → Option σ) :
+    σ → List (Sym × Nat × Nat) → Option σ
+  | st, [] => some st
+  | st, (s, l, p) :: rest =>
+    match op st s l p with
+    | none => none
+    | some st' => foldOp op st' rest
+
+theorem foldOp_append {σ Sym : Type} (op : σ → Sym → Nat → Nat → Option σ) (st : σ)
+    (xs ys : List (Sym × Nat × Nat)) :
+    foldOp op st (xs ++ ys) = (foldOp op st xs).bind (fun st' => foldOp op st' ys) := by
+  induction xs generalizing st with
+  | nil => simp [foldOp]
+  | cons x xs ih =>
+    obtain ⟨s, l, p⟩ := x
+    simp only [List.cons_append, foldOp]
+    cases op st s l p with
+    | none => simp
+    | some st' => simp [ih]
+
+theorem takeSyms_succ_inv {Sym : Type} {it rest : SymIter Sym} {n : Nat} {ss : List Sym}
+    (h : takeSyms it (n + 1) = some (ss, rest)) :
+    ∃ s it' ss', it.next = some (s, it') ∧ takeSyms it' n = some (ss', rest) ∧ ss = s :: ss' := by
+  simp only [takeSyms] at h
+  cases hn : it.next with
+  | none => simp [hn] at h
+  | some x =>
+    obtain ⟨s, it'⟩ := x
+    simp only [hn] at h
+    cases ht : takeSyms it' n with
+    | none => simp [ht] at h
+    | some y =>
+      obtain ⟨ss', rest'⟩ := y
+      simp only [ht, Option.some.injEq, Prod.mk.injEq] at h
+      exact ⟨s, it', ss', rfl, by rw [← h.2]; exact ht, h.1.symm⟩
+
+theorem takeSyms_length {Sym : Type} {it rest : SymIter Sym} {n : Nat} {ss : List Sym}
+    (h : takeSyms it n = some (ss, rest)) : ss.length = n := by
+  induction n generalizing it ss with
+  | zero => simp [takeSyms] at h; simp [h.1.symm]
+  | succ n ih =>
+    obtain ⟨s, it', ss', _, h2, rfl⟩ := takeSyms_succ_inv h
+    simp [ih h2]
+
+theorem takeSyms_succ {Sym : Type} {it rest : SymIter Sym} {n : Nat} {ss : List Sym}
+    (h : takeSyms it n = some (ss, rest)) :
+    takeSyms it (n + 1) =
+      match rest.next with
+      | none => none
+      | some (s, rest') => some (ss ++ [s], rest') := by
+  induction n generalizing it ss with
+  | zero =>
+    simp [takeSyms] at h
+    obtain ⟨rfl, rfl⟩ := h
+    simp only [takeSyms]
+    cases it.next with
+    | none => rfl
+    | some x => obtain ⟨s, it'⟩ := x; simp
+  | succ n ih =>
+    obtain ⟨s, it', ss', h1, h2, rfl⟩ := takeSyms_succ_inv h
+    rw [takeSyms, h1]
+    simp only
+    rw [ih h2]
+    cases rest.next with
+    | none => rfl
+    | some x => obtain ⟨s', r'⟩ := x; simp
+
+/-- what a successful run of the loop did -/
+theorem accLoop_some {σ Sym : Type} {B : Nat} {op : σ → Sym → Nat → Nat → Option σ}
+    {ps : List Nat} {a a' : Acc σ Sym} (h : accLoop B op ps a = some a') :
+    ∃ ss, takeSyms a.syms ps.length = some (ss, a'.syms) ∧
+      foldOp op a.st (ss.zip ((leftsW B a.accum ps).zip ps)) = some a'.st ∧
+      a'.accum = sumW B a.accum ps ∧ a'.laps = a.laps + lapsOf B a.accum ps ∧
+      a'.num = a.num + ps.length := by
+  induction ps generalizing a with
+  | nil =>
+    simp only [accLoop, Option.some.injEq] at h
+    subst h
+    exact ⟨[], by simp [takeSyms], by simp [foldOp], by simp [sumW], by simp [lapsOf], by simp⟩
+  | cons p ps ih =>
+    simp only [accLoop] at h
+    cases hnext : a.syms.next with
+    | none => simp [hnext] at h
+    | some x =>
+      obtain ⟨s, syms⟩ := x
+      simp only [hnext] at h
+      cases hop : op a.st s a.accum p with
+      | none => simp [hop] at h
+      | some st =>
+        simp only [hop] at h
+        obtain ⟨ss, h1, h2, h3, h4, h5⟩ := ih h
+        simp only at h1 h2 h3 h4 h5
+        refine ⟨s :: ss, ?_, ?_, ?_, ?_, ?_⟩
+        · simp only [List.length_cons, takeSyms, hnext, h1]
+        · simp only [leftsW, List.zip_cons_cons, foldOp, hop, h2]
+        · simp only [sumW, h3]
+        · simp only [lapsOf, h4]; omega
+        · simp only [List.length_cons, h5]; omega
+
+/-- inversion of `accumulate` with `infer_last_probability = true` -/
+theorem accumulate_infer_inv {σ Sym : Type} {B P : Nat} {op : σ → Sym → Nat → Nat → Option σ}
+    {syms rest : SymIter Sym} {probs : List Nat} {st st' : σ}
+    (h : accumulate B P op syms probs st true = some (rest, st')) :
+    ∃ a s, accLoop B op probs { accum := 0, laps := 0, num := 0, syms := syms, st := st } = some a ∧
+      1 ≤ a.num ∧ wsub B a.accum 1 < wsub B (wrappingPow2 B P) 1 ∧ a.laps = 0 ∧
+      a.syms.next = some (s, rest) ∧
+      op a.st s a.accum (wsub B (wrappingPow2 B P) a.accum) = some st' := by
+  unfold accumulate at h
+  cases hloop : accLoop B op probs { accum := 0, laps := 0, num := 0, syms := syms, st := st } with
+  | none => simp [hloop] at h
+  | some a =>
+    simp only [hloop, if_true] at h
+    by_cases hnum : a.num + 1 < 2
+    · simp [hnum] at h
+    · rw [if_neg hnum] at h
+      by_cases hc : wsub B a.accum 1 ≥ wsub B (wrappingPow2 B P) 1 ∨ a.laps ≠ 0
+      · simp [hc] at h
+      · rw [if_neg hc] at h
+        cases hnext : a.syms.next with
+        | none => simp [hnext] at h
+        | some x =>
+          obtain ⟨s, syms'⟩ := x
+          simp only [hnext] at h
+          cases hop : op a.st s a.accum (wsub B (wrappingPow2 B P) a.accum) with
+          | none => simp [hop] at h
+          | some stf =>
+            simp only [hop, Option.some.injEq, Prod.mk.injEq] at h
+            obtain ⟨rfl, rfl⟩ := h
+            refine ⟨a, s, rfl, by omega, ?_, ?_, hnext, hop⟩
+            · exact Nat.lt_of_not_ge (fun hh => hc (Or.inl hh))
+            · exact Classical.byContradiction (fun hh => hc (Or.inr hh))
+
+/-- inversion of `accumulate` with `infer_last_probability = false` -/
+theorem accumulate_noinfer_inv {σ Sym : Type} {B P : Nat} {op : σ → Sym → Nat → Nat → Option σ}
+    {syms rest : SymIter Sym} {probs : List Nat} {st st' : σ}
+    (h : accumulate B P op syms probs st false = some (rest, st')) :
+    ∃ a, accLoop B op probs { accum := 0, laps := 0, num := 0, syms := syms, st := st } = some a ∧
+      2 ≤ a.num ∧ a.accum = wrappingPow2 B P ∧ a.laps = (if P = B then 1 else 0) ∧
+      rest = a.syms ∧ st' = a.st := by
+  unfold accumulate at h
+  cases hloop : accLoop B op probs { accum := 0, laps := 0, num := 0, syms := syms, st := st } with
+  | none => simp [hloop] at h
+  | some a =>
+    simp only [hloop, Bool.false_eq_true, if_false, Nat.add_zero] at h
+    by_cases hnum : a.num < 2
+    · simp [hnum] at h
+    · rw [if_neg hnum] at h
+      by_cases hc : a.accum ≠ wrappingPow2 B P ∨ a.laps ≠ (if P = B then 1 else 0)
+      · simp [hc] at h
+      · rw [if_neg hc] at h
+        simp only [Option.some.injEq, Prod.mk.injEq] at h
+        refine ⟨a, rfl, by omega, ?_, ?_, h.1.symm, h.2.symm⟩
+        · exact Classical.byContradiction (fun hh => hc (Or.inl hh))
+        · exact Classical.byContradiction (fun hh => hc (Or.inr hh))
+
+theorem mem_le_sum {l : List Nat} {x : Nat} (h : x ∈ l) : x ≤ l.sum := by
+  induction l with
+  | nil => simp at h
+  | cons y l ih =>
+    simp only [List.sum_cons]
+    rcases List.mem_cons.mp h with rfl | h
+    · omega
+    · have := ih h; omega
+
+/-- the triples `operation` is called with for a full probability table `qs` -/
+def triples {Sym : Type} (ss : List Sym) (qs : List Nat) : List (Sym × Nat × Nat) :=
+  ss.zip ((psums 0 qs).zip qs)
+
+theorem accumulate_some_infer {σ Sym : Type} {B P : Nat} {op : σ → Sym → Nat → Nat → Option σ}
+    {syms rest : SymIter Sym} {probs : List Nat} {st st' : σ}
+    (hP1 : 1 ≤ P) (hP : P ≤ B) (hprobs : ∀ p ∈ probs, p < 2 ^ B)
+    (h : accumulate B P op syms probs st true = some (rest, st')) :
+    ∃ ss, ValidProbs P (probs ++ [2 ^ P - probs.sum]) ∧
+      takeSyms syms (probs.length + 1) = some (ss, rest) ∧
+      foldOp op st (triples ss (probs ++ [2 ^ P - probs.sum])) = some st' := by
+  have hPB := pow_le_pow_of_le hP
+  have h2B := two_pow_pos' B
+  have h2P := two_pow_pos' P
+  obtain ⟨a, s, hloop, hnum, hc, hlaps, hnext, hop⟩ := accumulate_infer_inv h
+  obtain ⟨ss, h1, h2, h3, h4, h5⟩ := accLoop_some hloop
+  simp only [Nat.zero_add] at h1 h2 h3 h4 h5
+  have hl0 : lapsOf B 0 probs = 0 := by omega
+  obtain ⟨hpos, hfit, hsum, hlefts⟩ := lapsOf_zero h2B hprobs hl0
+  simp only [Nat.zero_add] at hfit hsum
+  have hacc : a.accum = probs.sum := by rw [h3, hsum]
+  have hrange : 0 < probs.sum ∧ probs.sum < 2 ^ P := by
+    rw [hacc] at hc
+    have hone : (1 : Nat) < 2 ^ B := Nat.one_lt_two_pow (by omega)
+    have hT1 : wsub B (wrappingPow2 B P) 1 = 2 ^ P - 1 := by
+      rw [wsub_eq wrappingPow2_lt hone]
+      rcases Nat.lt_or_ge P B with hlt | hge
+      · rw [wrappingPow2_of_lt hlt, if_pos (by omega)]
+      · have : P = B := by omega
+        subst this
+        rw [wrappingPow2_self, if_neg (by omega)]; omega
+    rw [hT1, wsub_eq hfit hone] at hc
+    by_cases h1s : 1 ≤ probs.sum
+    · rw [if_pos h1s] at hc; omega
+    · rw [if_neg h1s] at hc; omega
+  refine ⟨ss ++ [s], ⟨?_, ?_, ?_⟩, ?_, ?_⟩
+  · simp only [List.length_append, List.length_singleton]; omega
+  · intro q hq
+    rcases List.mem_append.mp hq with hq | hq
+    · exact hpos q hq
+    · simp at hq; omega
+  · simp only [List.sum_append, List.sum_singleton]; omega
+  · rw [takeSyms_succ h1, hnext]
+  · have hlen : ss.length = probs.length := takeSyms_length h1
+    unfold triples
+    rw [psums_append]
+    simp only [psums, Nat.zero_add]
+    rw [List.zip_append (by simp), List.zip_append (by simp [hlen])]
+    rw [foldOp_append, ← hlefts, h2]
+    simp only [Option.bind_some, List.zip_cons_cons, List.zip_nil_right, foldOp]
+    rw [hacc, wsub_total hP hrange.1 hrange.2] at hop
+    rw [hop]
+
+theorem accumulate_some_noinfer {σ Sym : Type} {B P : Nat} {op : σ → Sym → Nat → Nat → Option σ}
+    {syms rest : SymIter Sym} {probs : List Nat} {st st' : σ}
+    (hP : P ≤ B) (hprobs : ∀ p ∈ probs, p < 2 ^ B)
+    (h : accumulate B P op syms probs st false = some (rest, st')) :
+    ∃ ss, ValidProbs P probs ∧
+      takeSyms syms probs.length = some (ss, rest) ∧
+      foldOp op st (triples ss probs) = some st' := by
+  have hPB := pow_le_pow_of_le hP
+  have h2B := two_pow_pos' B
+  have h2P := two_pow_pos' P
+  obtain ⟨a, hloop, hnum, hT, hL, rfl, rfl⟩ := accumulate_noinfer_inv h
+  obtain ⟨ss, h1, h2, h3, h4, h5⟩ := accLoop_some hloop
+  simp only [Nat.zero_add] at h1 h2 h3 h4 h5
+  have hlen : 2 ≤ probs.length := by omega
+  rcases List.eq_nil_or_concat probs with hnil | ⟨init, last, hcat⟩
+  · subst hnil; simp at hlen
+  · rw [List.concat_eq_append] at hcat
+    subst hcat
+    have hinit : ∀ p ∈ init, p < 2 ^ B := fun p hp => hprobs p (by simp [hp])
+    have hlast : last < 2 ^ B := hprobs last (by simp)
+    rw [lapsOf_append] at h4
+    rw [sumW_append] at h3
+    simp only [lapsOf, sumW, Nat.add_zero] at h3 h4
+    have hsi : sumW B 0 init < 2 ^ B := sumW_lt h2B init
+    have hw := wadd_eq hsi hlast
+    have hne : init ≠ [] := by
+      intro hh; subst hh; simp at hlen
+    have hvalid : lapsOf B 0 init = 0 ∧ 0 < last ∧ sumW B 0 init + last = 2 ^ P := by
+      rcases Nat.lt_or_ge P B with hlt | hge
+      · rw [if_neg (by omega)] at hL
+        rw [wrappingPow2_of_lt hlt] at hT
+        have hPlt := pow_lt_pow_of_lt hlt
+        by_cases hle : wadd B (sumW B 0 init) last ≤ sumW B 0 init
+        · rw [if_pos hle] at h4; omega
+        · rw [if_neg hle] at h4
+          by_cases hf : sumW B 0 init + last < 2 ^ B
+          · rw [if_pos hf] at hw; omega
+          · rw [if_neg hf] at hw; omega
+      · have : P = B := by omega
+        subst this
+        rw [if_pos rfl] at hL
+        rw [wrappingPow2_self] at hT
+        by_cases hle : wadd P (sumW P 0 init) last ≤ sumW P 0 init
+        · rw [if_pos hle] at h4
+          have hl0 : lapsOf P 0 init = 0 := by omega
+          obtain ⟨hp, _, hs, _⟩ := lapsOf_zero h2B hinit hl0
+          simp only [Nat.zero_add] at hs
+          obtain ⟨x, hx⟩ := List.exists_mem_of_ne_nil init hne
+          have hx0 := hp x hx
+          have hxs := mem_le_sum hx
+          by_cases hf : sumW P 0 init + last < 2 ^ P
+          · rw [if_pos hf] at hw; omega
+          · rw [if_neg hf] at hw
+            refine ⟨hl0, ?_, ?_⟩ <;> omega
+        · rw [if_neg hle] at h4; omega
+    obtain ⟨hl0, hlast0, htot⟩ := hvalid
+    obtain ⟨hpos, hfit, hsum, hlefts⟩ := lapsOf_zero h2B hinit hl0
+    simp only [Nat.zero_add] at hfit hsum
+    have hposAll : ∀ q ∈ init ++ [last], 0 < q := by
+      intro q hq
+      rcases List.mem_append.mp hq with hq | hq
+      · exact hpos q hq
+      · simp at hq; omega
+    refine ⟨ss, ⟨hlen, hposAll, ?_⟩, h1, ?_⟩
+    · simp only [List.sum_append, List.sum_singleton]; omega
+    · unfold triples
+      rw [← h2]
+      congr 2
+      rw [leftsW_append, psums_append, hlefts]
+      simp only [leftsW, psums, Nat.zero_add, hsum]
+
+end CV.Cat
+
+namespace CV.Cat
+open CV
+
+/-- **Acceptance means validity** (for every closure, every symbol iterator, every
+    `1 ≤ P ≤ B`, both values of `infer_last_probability`): if
+    `accumulate_nonzero_probabilities` returns `Ok`, then the full table `qs` (the input, plus
+    the inferred entry) has at least two entries, no zero entry, and sums to exactly `2^P`
+    without wrapping; `operation` was called once per entry with the true left cumulative. -/
+theorem accumulate_some {σ Sym : Type} {B P : Nat} {op : σ → Sym → Nat → Nat → Option σ}
+    {syms rest : SymIter Sym} {probs : List Nat} {st st' : σ} {infer : Bool}
+    (hP1 : 1 ≤ P) (hP : P ≤ B) (hprobs : ∀ p ∈ probs, p < 2 ^ B)
+    (h : accumulate B P op syms probs st infer = some (rest, st')) :
+    ∃ qs ss, ValidProbs P qs ∧
+      qs = (if infer then probs ++ [2 ^ P - probs.sum] else probs) ∧
+      takeSyms syms qs.length = some (ss, rest) ∧
+      foldOp op st (triples ss qs) = some st' := by
+  cases infer with
+  | true =>
+    obtain ⟨ss, h1, h2, h3⟩ := accumulate_some_infer hP1 hP hprobs h
+    exact ⟨_, ss, h1, by simp, by simpa using h2, h3⟩
+  | false =>
+    obtain ⟨ss, h1, h2, h3⟩ := accumulate_some_noinfer hP hprobs h
+    exact ⟨_, ss, h1, by simp, h2, h3⟩
+
+/-- in a valid table every entry is smaller than the total: no symbol has probability one -/
+theorem ValidProbs.lt {P : Nat} {qs : List Nat} (h : ValidProbs P qs) : ∀ q ∈ qs, q < 2 ^ P := by
+  obtain ⟨hlen, hpos, hsum⟩ := h
+  intro q hq
+  -- some other entry is positive
+  match qs, hlen, hpos, hsum, hq with
+  | a :: b :: rest, _, hpos, hsum, hq =>
+    have ha := hpos a (by simp)
+    have hb := hpos b (by simp)
+    simp only [List.sum_cons] at hsum
+    simp only [List.mem_cons] at hq
+    rcases hq with rfl | rfl | hq
+    · omega
+    · omega
+    · have := mem_le_sum hq; omega
+
+end CV.Cat
